@@ -43,7 +43,109 @@ def generate(tier, seed):
             c2 = kc.draw_case(rng, variant=v)
             c2["rel"] = str(rng.choice(["chunk", "mesh_type", "target_order", "cond_order", "linearity", "reproduce", "only_mean_flags"]))
             cases.append(("relation", c2))
+    for rep in range(max(4, n // 3)):
+        geo = str(rng.choice(["iso", "aniso", "aniso", "latlon"]))
+        cases.append(("fitted", {"geo": geo, "dim": int(rng.choice([2, 3])) if geo == "aniso" else int(rng.choice([1, 2, 3])),
+                                 "name": str(rng.choice(["Exponential", "Gaussian", "Spherical", "Stable"])), "variant": str(rng.choice(["Simple", "Ordinary"])),
+                                 "geo_scale": float(rng.choice([1.0, 6371.0, 57.29577951308232])), "cseed": int(rng.integers(1 << 30))}))
     return cases
+
+
+def check_fitted(ctx, c):
+    """Kriging with `fit_variogram=True`: whatever model the fit arrives at, estimate and variance solve the kriging system of
+    *that* model (the object's own), and the fit is the documented recipe (variogram of the prepared data in the model's geometry)."""
+    from gsverif.oracles import krige as okrige
+    from gsverif.oracles import rot as orot
+
+    rng = np.random.default_rng(c["cseed"])
+    geo, dim = c["geo"], c["dim"]
+    latlon = geo == "latlon"
+    n = int(rng.integers(40, 90))
+    with warnings.catch_warnings():
+        warnings.simplefilter("ignore")
+        if latlon:
+            gsc = c["geo_scale"]
+            truth = gs.Exponential(latlon=True, geo_scale=gsc, var=1.0, len_scale=0.35 * gsc)
+            cp = np.array([rng.uniform(-60, 60, size=n), rng.uniform(-170, 170, size=n)])
+            start = getattr(gs, c["name"])(latlon=True, geo_scale=gsc, var=0.7, len_scale=0.2 * gsc)
+            tp = np.array([rng.uniform(-60, 60, size=9), rng.uniform(-170, 170, size=9)])
+        else:
+            kw = {}
+            if geo == "aniso":
+                kw["anis"] = [round(float(v), 3) for v in np.exp(rng.uniform(0.4, 1.2, size=dim - 1) * rng.choice([-1, 1], size=dim - 1))]
+                kw["angles"] = [round(float(v), 3) for v in rng.uniform(-1.5, 1.5, size=dim * (dim - 1) // 2)]
+            truth = gs.Exponential(dim=dim, var=1.0, len_scale=2.0, **kw)
+            cp = rng.uniform(0, 12, size=(dim, n))
+            skw = dict(kw)
+            if geo == "aniso":
+                # the start ratios only have to differ from 1 (documented trigger of the directional fit)
+                skw["anis"] = [round(float(v), 3) for v in np.exp(rng.uniform(0.3, 1.0, size=dim - 1) * rng.choice([-1, 1], size=dim - 1))]
+            start = getattr(gs, c["name"])(dim=dim, var=0.7, len_scale=1.2, **skw)
+            tp = rng.uniform(0, 12, size=(dim, 9))
+        cv = np.asarray(gs.SRF(truth, seed=int(rng.integers(1, 1 << 20)), mode_no=256)(cp if (latlon or dim > 1) else cp[0])) + 0.3
+        import copy
+
+        twin = copy.deepcopy(start)
+        try:
+            if c["variant"] == "Simple":
+                k = gs.krige.Simple(start, cp, cv, mean=0.3, fit_variogram=True)
+            else:
+                k = gs.krige.Ordinary(start, cp, cv, fit_variogram=True)
+        except (RuntimeError, ValueError) as exc:
+            ctx.discard(f"variogram fit failed: {str(exc)[:60]}")
+            return
+        fitted = k.model
+        f, v = k(tp if (latlon or dim > 1) else tp[0])
+    ctx.cell(f"fitted/{geo}/{c['name']}/{c['variant']}")
+    mech = {"variant": c["variant"], "geo": geo, "what": "fitted"}
+    # (a) the kriging system of the object's own (fitted) model
+    if latlon:
+        ic, it = orot.latlon_to_xyz(cp[0], cp[1], radius=float(fitted.geo_scale)), orot.latlon_to_xyz(tp[0], tp[1], radius=float(fitted.geo_scale))
+    else:
+        ang, ani = [float(a) for a in fitted.angles], [float(a) for a in fitted.anis]
+        ic, it = orot.isometrize(dim, ang, ani, cp), orot.isometrize(dim, ang, ani, tp)
+    z = cv - (0.3 if c["variant"] == "Simple" else 0.0)
+    sill = float(fitted.var + fitted.nugget)
+    est, var, rawvar, cond = okrige.krige(fitted.covariance, ic, z, it, sill, float(fitted.var), unbiased=c["variant"] == "Ordinary",
+                                          cond_err=float(fitted.nugget), exact=False, pseudo=True)
+    ctx.event("systems_solved")
+    if cond > 1e9:
+        ctx.discard("ill-conditioned kriging system")
+        return
+    want_f = est + (0.3 if c["variant"] == "Simple" else 0.0)
+    ctx.event("oracle_comparisons", 2)
+    zs = max(1.0, common.maxabs(z))
+    if not common.maxabs(np.asarray(f) - want_f) <= _tol(cond, zs) * 100:
+        ctx.fail(dict(mech, what="fitted-model:estimate!=kriging-system-solution"),
+                 f"{c['variant']} {geo} dim {dim}: estimate differs from the solution for the object's fitted model by {common.maxabs(np.asarray(f) - want_f):.3e} "
+                 f"(fitted len_scale {fitted.len_scale:.4g}, anis {list(fitted.anis)}, cond {cond:.1e})")
+        return
+    if not common.maxabs(np.asarray(v) - var) <= _tol(cond, max(sill, 1.0)) * 100:
+        ctx.fail(dict(mech, what="fitted-model:variance!=kriging-system-solution"), f"variance differs by {common.maxabs(np.asarray(v) - var):.3e}")
+        return
+    # (b) the fit itself: the documented two-step recipe on the same data gives the same model
+    field = z.copy()
+    with warnings.catch_warnings():
+        warnings.simplefilter("ignore")
+        if geo == "aniso":
+            axes = orot.rot(dim, [float(a) for a in twin.angles]).T
+            emp = gs.vario_estimate(cp, field, direction=axes)
+        else:
+            emp = gs.vario_estimate(cp if (latlon or dim > 1) else cp[0], field, latlon=latlon, geo_scale=float(twin.geo_scale) if latlon else 1.0)
+        try:
+            twin.fit_variogram(*emp, sill=float(np.var(field)))
+        except (RuntimeError, ValueError):
+            ctx.discard("two-step fit failed")
+            return
+    ctx.event("fit_twins_compared")
+    for attr in ("var", "len_scale", "nugget"):
+        a, b_ = float(getattr(fitted, attr)), float(getattr(twin, attr))
+        if not abs(a - b_) <= 1e-6 * max(abs(b_), 1e-3 * sill):
+            ctx.fail(dict(mech, what="fit_variogram=True!=estimate-then-fit", attr=attr),
+                     f"{geo} geo_scale {c['geo_scale'] if latlon else 1}: {attr} {a!r} vs two-step recipe {b_!r}")
+            return
+    if not latlon and dim > 1 and not np.allclose(np.asarray(fitted.anis), np.asarray(twin.anis), rtol=1e-6, atol=1e-9):
+        ctx.fail(dict(mech, what="fit_variogram=True!=estimate-then-fit", attr="anis"), f"anis {list(fitted.anis)} vs {list(twin.anis)}")
 
 
 def _tol(cond, scale):
@@ -69,9 +171,17 @@ def check_oracle(ctx, c):
     b = _build(ctx, c, structured=c.get("structured", False))
     if b is None:
         return
+    if b.ok and b.krige.cond_no <= b.krige.drift_no + int(b.unbiased):
+        # as many unbiasedness constraints as data: the weights are fixed by the constraints alone and the system matrix is singular
+        ctx.discard("not more conditions than unbiasedness constraints (singular system)")
+        return
     if b.ok and c["cseed"] % 4 == 0:
         # history: in-place model change followed by the documented refresh `set_condition()`
-        c = kc.refresh_with_changed_model(c, b, b.rng)
+        try:
+            c = kc.refresh_with_changed_model(c, b, b.rng)
+        except np.linalg.LinAlgError:
+            ctx.discard("singular kriging system (plain inverse requested)")
+            return
         ctx.event("refreshed_after_model_change")
     if not b.ok:
         ctx.discard("conditioning values not representable")
@@ -292,4 +402,5 @@ def check_relation(ctx, c):
             ctx.fail(dict(mech, what="stored!=returned"), "stored kriging fields differ from the returned ones")
 
 
-CHECKS = {"oracle": check_oracle, "relation": check_relation}
+CHECKS = {
+    "fitted": check_fitted,"oracle": check_oracle, "relation": check_relation}
